@@ -1061,3 +1061,10 @@ mod tests {
         assert_eq!(blobs, reconstructed);
     }
 }
+
+/// Verification hooks: compiled only with `--cfg eigerco_lumina_verif` (see /verif).
+#[cfg(eigerco_lumina_verif)]
+#[doc(hidden)]
+pub mod verif {
+    pub use super::commitment::verif::*;
+}
